@@ -337,6 +337,99 @@ fn run() {
                 }
                 idx += 1;
             }
+            "parsex" => {
+                if announce {
+                    writeln!(out, "BEGIN {} {}", case_id, idx).unwrap();
+                    out.flush().unwrap();
+                }
+                let c = ctxs.entry(cur).or_insert_with(new_ctx);
+                {
+                    let mut pr = c.probe.borrow_mut();
+                    pr.log.clear();
+                    pr.steps = 0;
+                    pr.fail_at = fail_at;
+                }
+                let text = hex_decode(parts[1]);
+                let res = catch_unwind(AssertUnwindSafe(|| c.ctx.verif_parse(&text)));
+                match res {
+                    Ok(Ok(v)) => {
+                        writeln!(out, "{} {} PARSE ok {}", case_id, idx, hex_encode(&v.to_string())).unwrap()
+                    }
+                    Ok(Err(e)) => {
+                        if e.kind() == ErrorKind::ParsingError {
+                            writeln!(out, "{} {} PARSE err", case_id, idx).unwrap()
+                        } else {
+                            writeln!(out, "{} {} PARSE err-other", case_id, idx).unwrap()
+                        }
+                    }
+                    Err(_) => writeln!(out, "{} {} PARSE panic", case_id, idx).unwrap(),
+                }
+                idx += 1;
+            }
+            "sweep" => {
+                let alpha: Vec<char> = hex_decode(parts[1]).chars().collect();
+                let n: usize = parts[2].parse().unwrap();
+                let f: i64 = parts[3].parse().unwrap();
+                let k = alpha.len();
+                let c = ctxs.entry(cur).or_insert_with(new_ctx);
+                let mut idxs = vec![0usize; n];
+                if f >= 0 && n > 0 {
+                    idxs[0] = f as usize;
+                }
+                let lo = if f >= 0 { 1 } else { 0 };
+                loop {
+                    let text: String = idxs.iter().map(|i| alpha[*i]).collect();
+                    if announce {
+                        writeln!(out, "BEGIN {} {} {}", case_id, idx, hex_encode(&text)).unwrap();
+                        out.flush().unwrap();
+                    }
+                    let res = catch_unwind(AssertUnwindSafe(|| c.ctx.verif_parse(&text)));
+                    let body = match res {
+                        Ok(Ok(v)) => {
+                            let mut s = String::new();
+                            let mut first = true;
+                            for item in v.base_iter() {
+                                if !first {
+                                    s.push(' ');
+                                }
+                                first = false;
+                                show_obj(&item, &mut s);
+                            }
+                            format!("ok {}", hex_encode(&s))
+                        }
+                        Ok(Err(e)) => {
+                            if e.kind() == ErrorKind::ParsingError {
+                                "err".to_string()
+                            } else {
+                                format!("err-other {}", kind_name(e.kind()))
+                            }
+                        }
+                        Err(_) => "panic".to_string(),
+                    };
+                    writeln!(out, "{} {} SW {} {}", case_id, idx, hex_encode(&text), body).unwrap();
+                    if n == 0 {
+                        break;
+                    }
+                    let mut p = n as i64 - 1;
+                    let mut done = false;
+                    loop {
+                        if p < lo {
+                            done = true;
+                            break;
+                        }
+                        if idxs[p as usize] + 1 < k {
+                            idxs[p as usize] += 1;
+                            break;
+                        }
+                        idxs[p as usize] = 0;
+                        p -= 1;
+                    }
+                    if done {
+                        break;
+                    }
+                }
+                idx += 1;
+            }
             "end" | "" => {}
             _ => {
                 writeln!(out, "{} {} BADCMD {}", case_id, idx, line).unwrap();
